@@ -163,6 +163,43 @@ def main():
     out += 'Definition effects : list fun_effects :=\n  [%s].\n\n' % ';\n   '.join(rows)
     out += 'Definition api_resets : list (string * list string) :=\n  [%s].\n\n' % '; '.join('(%s, %s)' % (coq_str(a), coq_list([coq_str(r) for r in rs])) for a, rs in api_rows)
     out += 'Definition mutable_defaults : list string := %s.\n' % coq_list([coq_str(x) for x in sorted(mutable_defaults)])
+    # ---- per-sentence scratch of the transformer and the converter (C10)
+    def self_attrs_assigned(fn):
+        res = []
+        for n in ast.walk(fn):
+            if isinstance(n, (ast.Assign, ast.AnnAssign)):
+                for tg in (n.targets if isinstance(n, ast.Assign) else [n.target]):
+                    if isinstance(tg, ast.Attribute) and isinstance(tg.value, ast.Name) and tg.value.id == 'self' and tg.attr not in res:
+                        res.append(tg.attr)
+        return res
+
+    def calls_self(fn, name):
+        return any(isinstance(n, ast.Call) and isinstance(n.func, ast.Attribute) and isinstance(n.func.value, ast.Name)
+                   and n.func.value.id == 'self' and n.func.attr == name for n in ast.walk(fn))
+
+    def all_self_attrs(cls):
+        res = []
+        for q, f in funs.items():
+            if f['cls'] == cls:
+                for a in self_attrs_assigned(f['node']):
+                    if a not in res:
+                        res.append(a)
+        return res
+    rows2 = []
+    for cls, reset in (('CNLTransformer', '_clear'), ('ASPConverter', 'clear_support_variables')):
+        init = self_attrs_assigned(funs['%s.__init__' % cls]['node'])
+        everywhere = all_self_attrs(cls)
+        resets = self_attrs_assigned(funs['%s.%s' % (cls, reset)]['node'])
+        rows2.append('(%s, %s, %s, %s)' % (coq_str(cls), coq_list([coq_str(a) for a in init]), coq_list([coq_str(a) for a in everywhere]), coq_list([coq_str(a) for a in resets])))
+    out += '\n(* class, attributes assigned in __init__, attributes assigned anywhere in the class, attributes re-created by the reset method *)\n'
+    out += 'Definition instance_state : list (string * list string * list string * list string) :=\n  [%s].\n' % ';\n   '.join(rows2)
+    enders = []
+    for cb in ('standard_proposition', 'implicit_definition_proposition', 'explicit_definition_proposition'):
+        enders.append('(%s, %s)' % (coq_str(cb), 'true' if calls_self(funs['CNLTransformer.%s' % cb]['node'], '_clear') else 'false'))
+    out += 'Definition sentence_callbacks_clear : list (string * bool) := %s.\n' % coq_list(enders)
+    cp = funs['ASPConverter.convert_problem']['node']
+    in_loop = any(isinstance(n, ast.For) and any(isinstance(m, ast.Call) and isinstance(m.func, ast.Attribute) and m.func.attr == 'clear_support_variables' for m in ast.walk(n)) for n in ast.walk(cp))
+    out += 'Definition convert_problem_clears_per_proposition : bool := %s.\n' % ('true' if in_loop else 'false')
     write_if_changed(os.path.join(COQ, 'Gen', 'Effects.v'), out)
     return 0
 
